@@ -38,7 +38,8 @@ CASE_TIMEOUT = 150
 MONITORS = {"product": False, "solvers": False}
 MONITOR_VERDICTS = ()
 # 9 families x 8 mode sets (coprime): every family meets every mode set
-FAMILIES = ["scalar", "scalar", "scalar_matrix1", "blocks", "matrix_fd", "mask", "multiblock", "multiblock", "mask2"]
+FAMILIES = ["scalar", "scalar", "scalar_matrix1", "blocks", "matrix_fd", "mask", "multiblock", "multiblock", "mask2",
+            "scalar", "bigmatrix"]  # 11 families x 8 mode sets (coprime)
 
 
 def plan(tier, seed):
@@ -70,7 +71,7 @@ def run_case(spec):
     family = spec["family"]
     g = sympy.Symbol("g", real=True)
     ops = secondq.modes(rng, spec["modes"] if family in ("scalar", "scalar_matrix1") else "bosons" if family == "mask" else str(rng.choice(["bosons", "mixed", "spin", "ladder"])))
-    if family == "mask":
+    if family in ("mask", "bigmatrix"):
         ops = [BosonOp("a")]
     if family == "mask2":
         ops = [BosonOp("a"), BosonOp("b")] if rng.random() < 0.6 else [BosonOp("a"), pauli.SigmaMinus("s")]
@@ -123,6 +124,21 @@ def run_case(spec):
             elif family == "scalar_matrix1":
                 outs = block_diagonalize([sympy.Matrix([[h0]]), sympy.Matrix([[h1]])])
                 H0b, H1b = [[h0]], [[h1]]
+            elif family == "bigmatrix":
+                # 6 or 7 matrix states in one fully diagonalised block, dense operator-valued coupling: the symbolic
+                # matrix products have inner sums of 6-7 terms
+                kdim = int(rng.choice([6, 7]))
+                lo, hi = secondq.gens_of(ops[0])
+                ds = [secondq.R(0)] + [secondq.R(int(rng.integers(1, 4)), int(rng.choice([5, 7, 11]))) + secondq.R(q, 2) for q in range(1, kdim)]
+                H0b = [[(h0 + ds[i]) if i == j else 0 for j in range(kdim)] for i in range(kdim)]
+                H1b = [[0] * kdim for _ in range(kdim)]
+                for i in range(kdim):
+                    for j in range(i + 1, kdim):
+                        c = secondq.R(int(rng.integers(1, 4)), int(rng.integers(1, 4)))
+                        H1b[i][j], H1b[j][i] = c * (lo + hi), c * (lo + hi)
+                deg = 1
+                max_order = 2
+                outs = block_diagonalize([sympy.Matrix(H0b), sympy.Matrix(H1b)])
             elif family == "multiblock":
                 # 3 matrix states in 2-3 blocks (layouts [0,1,2], [0,1,1], [0,0,1]), optionally one block fully diagonalised
                 kdim = 3
@@ -194,7 +210,7 @@ def run_case(spec):
             N = kdim * D
             mi = np.repeat(np.arange(kdim), D)
             fi = np.tile(np.arange(D), kdim)
-            if family in ("scalar", "scalar_matrix1", "matrix_fd"):
+            if family in ("scalar", "scalar_matrix1", "matrix_fd", "bigmatrix"):
                 keep = np.eye(N, dtype=bool)
             elif family == "blocks":
                 keep = mi[:, None] == mi[None, :]
@@ -322,7 +338,7 @@ def run_case(spec):
 
 def finalize(c, tier, evaluations, distinct):
     reasons = []
-    need = dict(matrix_elements_compared=2000, operator_identities_checked=200, family_scalar=20, family_blocks=8, family_matrix_fd=8, family_mask=8, family_mask2=8, mask2_noncartesian=4, family_multiblock=10, multiblock_fd=3,
+    need = dict(matrix_elements_compared=2000, operator_identities_checked=200, family_scalar=20, family_blocks=8, family_matrix_fd=8, family_mask=8, family_mask2=8, mask2_noncartesian=4, family_bigmatrix=6, family_multiblock=10, multiblock_fd=3,
                 stat_BosonOp=30, stat_FermionOp=15, stat_LadderOp=10, stat_SigmaMinus=10)
     for k, v in need.items():
         if c.get(k, 0) < v:
